@@ -407,6 +407,13 @@ class EvalMixin(object):
             if isinstance(op, ast.Mod):
                 self.safety(st, "ZeroDivisionError", b.e != 0, node)
                 return VInt(z3.If(b.e > 0, a.e % b.e, -((-a.e) % (-b.e))))
+        if isinstance(op, ast.Add) and ((isinstance(a, VStr) and isinstance(b, VOpt) and isinstance(b.val, VStr)) or
+                                        (isinstance(b, VStr) and isinstance(a, VOpt) and isinstance(a.val, VStr))):
+            # str + Optional[str]: TypeError when it is None
+            o = a if isinstance(a, VOpt) else b
+            self.safety(st, "TypeError", z3.Not(o.isnone), node, "can only concatenate str (not NoneType) to str")
+            a = a.val if isinstance(a, VOpt) else a
+            b = b.val if isinstance(b, VOpt) else b
         if isinstance(a, VStr) and isinstance(b, VStr) and isinstance(op, ast.Add):
             return VStr(z3.Concat(a.e, b.e))
         if isinstance(a, VStr) and isinstance(b, VInt) and isinstance(op, ast.Mult):
@@ -697,6 +704,11 @@ class EvalMixin(object):
                 return st.alloc(HObj("Tree", {}))
             if isinstance(cell, HObj) and cell.cls == "ObjDict":
                 return st.alloc(HObj("Scope1", {}))     # a member object; the contract observes its stores by anchors
+            if isinstance(cell, HObj) and cell.cls == "KeyedObjs":
+                # a read-only dict of objects whose string fields are functions of the key (d[k].field == FIELD(k))
+                key = idx.e if isinstance(idx, VStr) else PyVal.ps(idx.e)
+                return st.alloc(HObj("Fmt", dict((fld, VStr(z3.Function("field_%s_by_key" % fld, StrS, StrS)(key)))
+                                                 for fld in cell.f)))
             if isinstance(cell, HRecList) and isinstance(idx, VInt):
                 j = self.norm_index(idx.e, cell.n)
                 self.safety(st, "IndexError", z3.And(0 <= j, j < cell.n), node, "list index out of range")
@@ -768,9 +780,15 @@ class EvalMixin(object):
             cell = self.as_hlist(cell)
             l, h = self.clamp(lo, cell.n, 0), self.clamp(hi, cell.n, None)
             ln = z3.simplify(z3.If(h - l > 0, h - l, 0))
-            i = z3.Int(fresh_name("li"))
-            arr = z3.Lambda([i], z3.Select(cell.arr, l + i))
-            return st.alloc(HList(cell.ek, ln, arr))
+            if lo is None or isinstance(lo, VNone):
+                return st.alloc(HList(cell.ek, ln, cell.arr))      # a prefix: the same element function
+            # the same slice of the same list is the same sequence (one term, so that functions of it agree)
+            cache = self.__dict__.setdefault("_slice_cache", {})
+            ck = (cell.arr.sexpr(), z3.simplify(l).sexpr())
+            if ck not in cache:
+                i = z3.Int(fresh_name("li"))
+                cache[ck] = z3.Lambda([i], z3.Select(cell.arr, l + i))
+            return st.alloc(HList(cell.ek, ln, cache[ck]))
         raise OutOfSubset("slice of %r" % (base,), node)
 
     def conc(self, v):
